@@ -509,7 +509,7 @@ package tabular
 //@   requires [cell-ok] chainOK(heap[valueProperty.chain], heap[valueProperty.key], heap[valueProperty.val], c.properties) && cbsLive(c.callbacks) && !c.mustCalc
 //@   assigns when r.cells != nil: r.cells, when r.cells != nil: elemscap(r.cells), r.ErrorContainer, new(ErrorContainer), when r.ErrorContainer != nil: r.ErrorContainer.errors_, when r.ErrorContainer != nil: elemscap(r.ErrorContainer.errors_), when r.inTable != nil: r.inTable.columns, when r.inTable != nil: r.inTable.nColumns, when r.inTable != nil: elemscap(r.inTable.columns), new(column), new(valueProperty), ghost cbErrN, ghost cbErrLog, ghost cbCallN, ghost cbCallSelf, ghost cbCallOwner, ghost addRowFires
 //@   ensures [row-cell-callbacks-once-for-the-added-cell] old(r.cells) != nil ==> addRowFires == old(addRowFires) + 1 @C13
-//@   call invokePropertyCallbacks#1 before assert [row-cell-callbacks-get-the-live-cell-at-add-time] arg1 == 0 && arg2 == mkiface(type[*Cell], box(&r.cells[len(r.cells) - 1])) @C13
+//@   call invokePropertyCallbacks#1 before assert [row-cell-callbacks-get-the-live-cell-at-add-time] arg0 == r.rowCellCallbacks && arg1 == 0 && arg2 == mkiface(type[*Cell], box(&r.cells[len(r.cells) - 1])) @C13
 //@   call invokePropertyCallbacks#1 after ghost addRowFires = addRowFires + 1
 //@   ensures [returns-row] result == r
 //@   ensures [error-container] (old(r.ErrorContainer) != nil ==> r.ErrorContainer == old(r.ErrorContainer)) && (old(r.ErrorContainer) == nil && r.ErrorContainer != nil ==> fresh(r.ErrorContainer) && fresh(r.ErrorContainer.errors_)) && rowOwn(r) @C11
@@ -594,11 +594,11 @@ package tabular
 //@   loop#1 invariant (t.rows.arr == old(t.rows.arr) && t.rows.off == old(t.rows.off) && t.rows.cap == old(t.rows.cap)) || fresh(t.rows)
 //@   loop#1 invariant (t.columns.arr == old(t.columns.arr) && t.columns.off == old(t.columns.off) && t.columns.cap == old(t.columns.cap)) || fresh(t.columns)
 //@   loop#1 invariant [cell-callbacks-so-far] addColFires == old(addColFires) + rangeindex + 1 && addTblFires == old(addTblFires) + rangeindex + 1
-//@   call invokePropertyCallbacks#1 before assert [row-own-callbacks-at-add-time-on-the-row] arg1 == 0 && arg2 == mkiface(type[*Row], box(row)) @C13
-//@   call invokePropertyCallbacks#2 before assert [table-row-callbacks-at-add-time-on-the-row] arg1 == 0 && arg2 == mkiface(type[*Row], box(row)) @C13
-//@   call invokePropertyCallbacks#3 before assert [column-cell-callbacks-get-the-live-cell-at-add-time] arg1 == 0 && arg2 == mkiface(type[*Cell], box(&row.cells[rangeindex + 1])) @C13
+//@   call invokePropertyCallbacks#1 before assert [row-own-callbacks-at-add-time-on-the-row] arg0 == row.rowItselfCallbacks && arg1 == 0 && arg2 == mkiface(type[*Row], box(row)) @C13
+//@   call invokePropertyCallbacks#2 before assert [table-row-callbacks-at-add-time-on-the-row] arg0 == t.tableRowAdditionCallbacks && arg1 == 0 && arg2 == mkiface(type[*Row], box(row)) @C13
+//@   call invokePropertyCallbacks#3 before assert [column-cell-callbacks-get-the-live-cell-at-add-time] arg0 == t.columns[rangeindex + 2].cellCallbacks && arg1 == 0 && arg2 == mkiface(type[*Cell], box(&row.cells[rangeindex + 1])) @C13
 //@   call invokePropertyCallbacks#3 after ghost addColFires = addColFires + 1
-//@   call invokePropertyCallbacks#4 before assert [table-cell-callbacks-get-the-live-cell-at-add-time] arg1 == 0 && arg2 == mkiface(type[*Cell], box(&row.cells[rangeindex + 1])) @C13
+//@   call invokePropertyCallbacks#4 before assert [table-cell-callbacks-get-the-live-cell-at-add-time] arg0 == t.tableCellCallbacks && arg1 == 0 && arg2 == mkiface(type[*Cell], box(&row.cells[rangeindex + 1])) @C13
 //@   call invokePropertyCallbacks#4 after ghost addTblFires = addTblFires + 1
 //@   loop#1 decreases len(row.cells) - rangeindex
 
@@ -661,8 +661,8 @@ package tabular
 //@   loop#1 decreases len(items) - rangeindex
 //@   loop#1 unfold chainOK(heap[valueProperty.chain], heap[valueProperty.key], heap[valueProperty.val], nil)
 //@   loop#2 invariant [header-cell-callbacks-so-far] addTblFires == old(addTblFires) + rangeindex + 1
-//@   call invokePropertyCallbacks#1 before assert [table-row-callbacks-at-add-time-on-the-header-row] arg1 == 0 && arg2 == mkiface(type[*Row], box(hr)) @C13
-//@   call invokePropertyCallbacks#3 before assert [table-cell-callbacks-get-the-live-header-cell] arg1 == 0 && arg2 == mkiface(type[*Cell], box(&hr.cells[rangeindex + 1])) @C13
+//@   call invokePropertyCallbacks#1 before assert [table-row-callbacks-at-add-time-on-the-header-row] arg0 == t.tableRowAdditionCallbacks && arg1 == 0 && arg2 == mkiface(type[*Row], box(hr)) @C13
+//@   call invokePropertyCallbacks#3 before assert [table-cell-callbacks-get-the-live-header-cell] arg0 == t.tableCellCallbacks && arg1 == 0 && arg2 == mkiface(type[*Cell], box(&hr.cells[rangeindex + 1])) @C13
 //@   call invokePropertyCallbacks#3 after ghost addTblFires = addTblFires + 1
 //@   loop#2 invariant -1 <= rangeindex && rangeindex < len(hr.cells)
 //@   loop#2 invariant WF(t) && tblProps(t) && colsOwn(t) && t.headerRow == hr && fresh(hr) && cellsOwn(hr) && rowProps(hr) && len(hr.cells) == len(items) && t.rows === old(t.rows) && t.nColumns == max(old(t.nColumns), len(items)) && t.ErrorContainer == old(t.ErrorContainer)
